@@ -8,6 +8,7 @@ import (
 	"math/rand"
 	"os"
 	"runtime"
+	"runtime/debug"
 	"sort"
 	"strconv"
 	"strings"
@@ -677,6 +678,37 @@ func (h *tbHist) openAttemptDuringHand() {
 	h.st.OpMix["open-attempt-during-hand"]++
 }
 
+// stopMidHandThenLeaves: the hand is stopped by a pause or a close (the status is no longer a hand status, the hand's
+// entries stay until it is settled), then players who were not dealt in leave one by one — the entries must go on
+// denoting the same players (D30: they were only re-mapped while the status was a hand status)
+func (h *tbHist) stopMidHandThenLeaves() {
+	t := h.table()
+	if t.State.GameState == nil || t.State.Status != pokertable.TableStateStatus_TableGamePlaying {
+		return
+	}
+	out := []int{}
+	for _, p := range t.State.PlayerStates {
+		if !p.IsParticipated {
+			out = append(out, idNum(p.PlayerID))
+		}
+	}
+	if len(out) == 0 {
+		return
+	}
+	if h.r.Intn(2) == 0 {
+		h.opSimple("pause")
+	} else {
+		h.opSimple("close")
+	}
+	for i, k := range h.r.Perm(len(out)) {
+		if i >= 2 || h.dead {
+			break
+		}
+		h.opLeave([]int{out[k]})
+	}
+	h.st.OpMix["departures-after-the-hand-was-stopped-by-pause-or-close"]++
+}
+
 func (h *tbHist) emptySeats() []int {
 	out := []int{}
 	for s, pi := range h.table().State.SeatMap {
@@ -869,8 +901,23 @@ func (h *tbHist) betweenHands(inHand bool) {
 	}
 }
 
-func genTBHistory(r *rand.Rand, st *tbStats, hid int, maxHands int) string {
+func genTBHistory(r *rand.Rand, st *tbStats, hid int, maxHands int) (out string) {
 	h := &tbHist{w: &strings.Builder{}, r: r, st: st}
+	// a panic inside a synchronous engine call (the harness goroutine is the caller): the engine crashed on this very
+	// history — reported like a crash of one of the engine's own goroutines; a panic in harness code is passed on
+	defer func() {
+		if e := recover(); e != nil {
+			where := panicSite(string(debug.Stack()))
+			if !strings.Contains(where, "github.com/weedbox/pokertable") {
+				panic(e)
+			}
+			h.line("# panic inside a synchronous engine call: %v at %s", e, where)
+			h.line("tb crash h=%d | %s at %s", hid, strings.ReplaceAll(fmt.Sprint(e), "\n", " "), where)
+			h.line("tb end")
+			st.Crashed++
+			out = h.w.String()
+		}
+	}()
 	h.maxSeat = 2 + r.Intn(9)
 	minP := 2
 	if r.Intn(6) == 0 {
@@ -961,6 +1008,9 @@ func genTBHistory(r *rand.Rand, st *tbStats, hid int, maxHands int) string {
 		}
 		if r.Intn(2) == 0 {
 			h.betweenHands(true)
+		}
+		if !h.dead && r.Intn(8) == 0 {
+			h.stopMidHandThenLeaves()
 		}
 		if h.dead || !h.playHand() {
 			break
